@@ -125,3 +125,18 @@ MANIFEST_TEXT["C17"] = dict(engine="E-input", design_ref="DESIGN.md §4 C17",
     technique="exhaustive enumeration of (offset, width, value, background) and of (word, rank) over structured word families, in three build configurations (portable select, BMI2, overflow checks)",
     level_text="All 12 288 fields x value/background alphabets with whole-array comparison; every rank of ~10^5 (10^6) structured words on both select implementations; all helper domains at their boundaries.",
     level_note="Reference answers are computed bit by bit in the driver; words outside the families are not explored.")
+
+PROPS["C16"] = dict(
+    driver="c16", builds=["rel", "dbg"], level="model_checking",
+    rule="E-hist: breadth-first search over call sequences on the real builders. SparseBuilder: 60 parameter sets (universe in {0,1,2,5,8,70} x capacity 0..4 x set/multiset); calls try_set(i), set(i) (panic caught) for i around next_index, "
+         "the universe end and usize::MAX, extend with fully valid lists and lists whose first element is invalid. RLBuilder: try_set(start, len) with start below/at/above the current length and 2^62, len in {0, 1, 3, 2^20, "
+         "the largest that fits, one more than fits, usize::MAX}, set_len below/at/above the length. After every call: accepted/refused exactly as the reference says; a refused call leaves the Debug rendering byte-identical; "
+         "len/next_index/is_full/is_empty/count_ones/count_zeros exact; conversion of a clone succeeds iff allowed and yields exactly the accepted positions / merged runs (also after completing a clone with the smallest admissible indices). "
+         "States deduplicated on the builder's Debug rendering; distinct = distinct renderings per BFS.",
+    bounds={"quick": "depth 4", "thorough": "depth 5"},
+    assumptions=[HOOK_ASSUMPTION, "extend with a list that becomes invalid after a valid prefix is not explored (what is accepted before the panic is not specified)"],
+)
+MANIFEST_TEXT["C16"] = dict(engine="E-hist", design_ref="DESIGN.md §4 C16",
+    technique="explicit-state breadth-first exploration of builder call sequences on the real builders, reference model of accepted calls, side-effect oracle on the Debug rendering",
+    level_text="All sequences of valid and invalid calls up to depth 4/5 over 60 sparse parameter sets and the run-length builder; every transition executed on the real builder; every reached state converted and compared with the accepted positions.",
+    level_note="Histories longer than the bound and parameters outside the alphabet are not explored.")
